@@ -12,11 +12,11 @@ pub struct AnyStats<'a> {
     chunk: Option<AnyChunk<'a>>,
 }
 
-impl<A, S> From<Stats<'_, A, S>> for AnyStats<'_>
+impl<'a, A, S> From<Stats<'a, A, S>> for AnyStats<'a>
 where
     S: BumpAllocatorSettings,
 {
-    fn from(value: Stats<'_, A, S>) -> Self {
+    fn from(value: Stats<'a, A, S>) -> Self {
         Self {
             chunk: value.current_chunk().map(Into::into),
         }
@@ -149,11 +149,11 @@ pub struct AnyChunk<'a> {
     marker: PhantomData<&'a ()>,
 }
 
-impl<A, S> From<Chunk<'_, A, S>> for AnyChunk<'_>
+impl<'a, A, S> From<Chunk<'a, A, S>> for AnyChunk<'a>
 where
     S: BumpAllocatorSettings,
 {
-    fn from(value: Chunk<'_, A, S>) -> Self {
+    fn from(value: Chunk<'a, A, S>) -> Self {
         Self {
             header: value.chunk.header().cast(),
             header_size: size_of::<ChunkHeader<A>>(),
@@ -342,11 +342,11 @@ pub struct AnyChunkPrevIter<'a> {
     pub chunk: Option<AnyChunk<'a>>,
 }
 
-impl<A, S> From<ChunkPrevIter<'_, A, S>> for AnyChunkPrevIter<'_>
+impl<'a, A, S> From<ChunkPrevIter<'a, A, S>> for AnyChunkPrevIter<'a>
 where
     S: BumpAllocatorSettings,
 {
-    fn from(value: ChunkPrevIter<'_, A, S>) -> Self {
+    fn from(value: ChunkPrevIter<'a, A, S>) -> Self {
         Self {
             chunk: value.chunk.map(Into::into),
         }
@@ -379,11 +379,11 @@ pub struct AnyChunkNextIter<'a> {
     pub chunk: Option<AnyChunk<'a>>,
 }
 
-impl<A, S> From<ChunkNextIter<'_, A, S>> for AnyChunkNextIter<'_>
+impl<'a, A, S> From<ChunkNextIter<'a, A, S>> for AnyChunkNextIter<'a>
 where
     S: BumpAllocatorSettings,
 {
-    fn from(value: ChunkNextIter<'_, A, S>) -> Self {
+    fn from(value: ChunkNextIter<'a, A, S>) -> Self {
         Self {
             chunk: value.chunk.map(Into::into),
         }
